@@ -364,7 +364,8 @@ pub fn run(ctx: &mut Ctx) {
                         for (i, want) in specs[p].expected.iter().enumerate() {
                             for (k, (w, g)) in want.iter().zip(dense[p][i].iter()).enumerate() {
                                 // (results in the subnormal range keep few bits: absolute slack there)
-                                let ok = (w - g).abs() <= 4.0 * f64::EPSILON * w.abs() + 1e-305 || (w.is_nan() && g.is_nan());
+                                // a sum of n terms carries up to n/2 ulp of rounding, in whatever order it is formed
+                                let ok = (w - g).abs() <= (4.0 + want.len() as f64) * f64::EPSILON * w.abs() + 1e-305 || (w.is_nan() && g.is_nan());
                                 if !ok || g.is_nan() || *g < 0.0 {
                                     bad = Some((p, i, k, *w, *g));
                                 }
@@ -403,7 +404,7 @@ pub fn run(ctx: &mut Ctx) {
         }
     });
     ctx.finish(crate::report::extra(
-        "cases = (game, candidate named strategy for both players; every listing is handed over through iterators - outer and per infoset - whose size_hint is (0,None), (min(1,len),None), (min(1,len),len+2) or exact): a valid weight table (random profile x scale in {1,7,1e-3,1e200,1e-200}) with 0-3 mutations per player from {shuffle, duplicate action entry, repeated infoset with a subset of actions, dropped infoset, unknown infoset, other player's infoset, illegal action, special weight from {-1,-0,0,5e-324,1e-300,1,1e300,NaN,+-inf}, all-zero infoset, omitted action, empty action list, overflowing total, wrong action on a single-action infoset}. O4 computes the set of violated import rules and the expected weight/total table (last write wins); required: Ok iff the set is empty, Err(kind) in the set, stored probabilities (hook verif_probs) within 4 ulp of expected, and from_named == from_named_eq (same Ok value or same error kind); for half of the games the candidates are also imported into the same game built with a key type whose Hash collides almost always and whose Eq ignores case (only the parity of the name length is hashed; every occurrence of a name in random case): same verdict, bit-identical stored probabilities. distinct counted per judged candidate (cases are generated from independent streams); non-trivial = every candidate.",
+        "cases = (game, candidate named strategy for both players; every listing is handed over through iterators - outer and per infoset - whose size_hint is (0,None), (min(1,len),None), (min(1,len),len+2) or exact): a valid weight table (random profile x scale in {1,7,1e-3,1e200,1e-200}) with 0-3 mutations per player from {shuffle, duplicate action entry, repeated infoset with a subset of actions, dropped infoset, unknown infoset, other player's infoset, illegal action, special weight from {-1,-0,0,5e-324,1e-300,1,1e300,NaN,+-inf}, all-zero infoset, omitted action, empty action list, overflowing total, wrong action on a single-action infoset}. O4 computes the set of violated import rules and the expected weight/total table (last write wins); required: Ok iff the set is empty, Err(kind) in the set, stored probabilities (hook verif_probs) within (4 + number of actions) ulp of expected, and from_named == from_named_eq (same Ok value or same error kind); for half of the games the candidates are also imported into the same game built with a key type whose Hash collides almost always and whose Eq ignores case (only the parity of the name length is hashed; every occurrence of a name in random case): same verdict, bit-identical stored probabilities. distinct counted per judged candidate (cases are generated from independent streams); non-trivial = every candidate.",
         &["a single-action infoset mentioned with an empty action list is don't-care (the documentation does not say whether that covers it)"],
     ));
 }
